@@ -510,8 +510,35 @@ def poly_build(rng, depth, made):
             out = (Polynomial(c), r_const(c), f'P({c})')
         made.append(out)
         return out
-    kind = rng.choice(['add', 'sub', 'sub', 'mul', 'neg', 'pow', 'radd', 'rsub', 'rmul', 'numsub', 'selfsub', 'mulzero', 'cancel', 'zeroplus'])
+    kind = rng.choice(['add', 'sub', 'sub', 'mul', 'neg', 'pow', 'radd', 'rsub', 'rmul', 'numsub', 'selfsub', 'mulzero', 'cancel', 'zeroplus',
+                       'nearcancel', 'iadd'])
     x, rx, sx = poly_build(rng, depth - 1, made)
+    if kind == 'nearcancel':
+        # exact coefficients (big integers, fractions) that cancel down to one part in 10^15 .. 10^18: the small difference is the value
+        from fractions import Fraction as _F
+        big = rng.choice([10 ** 17, 3 * 10 ** 15, 2 ** 60, 10 ** 30])
+        c1, c2 = ((big + 1, big) if rng.random() < 0.6 else (_F(1, 3) + _F(1, 10 ** 18), _F(1, 3)))
+        out = (c1 * x - c2 * x, r_mul(r_const(c1 - c2), rx), f'({c1} * {sx} - {c2} * {sx})')
+        made.append(out)
+        return out
+    if kind == 'iadd':
+        # accumulator idiom on Polynomial objects: the operands must denote afterwards what they denoted before
+        y, ry, sy = poly_build(rng, depth - 1, made)
+        start = rng.choice(('zero', 'x', 'copy'))
+        acc = {'zero': 0, 'x': x, 'copy': Polynomial(x)}[start]
+        racc = r_const(0) if start == 'zero' else rx
+        if start == 'zero':
+            acc += x
+            racc = rx
+        acc += y
+        racc = r_add(racc, ry)
+        acc += x
+        racc = r_add(racc, rx)
+        out = (acc, racc, f'(acc={start}; acc += ..{sy}; acc += {sx})')
+        made.append((x, rx, sx + ' [after being used in +=]'))
+        made.append((y, ry, sy + ' [after being used in +=]'))
+        made.append(out)
+        return out
     if kind == 'zeroplus':
         # the zero polynomial built from the number 0 as LEFT operand of a sum, then multiplied and cancelled: no term may survive
         y, ry, sy = poly_build(rng, depth - 1, made)
